@@ -546,7 +546,7 @@ func check(id, tier string) int {
 		"step_budget_overruns": total.Overruns,
 		"process_deaths":      deathNotes,
 		"workers":             nw,
-		"detsel": map[string]any{"rewritten_selects": dsRep.Rewritten, "refused": dsRep.Refused, "files_scanned": dsRep.Files, "clause_orders_drawn": total.Detsel},
+		"detsel": map[string]any{"rewritten_selects": dsRep.Rewritten, "refused": dsRep.Refused, "files_scanned": dsRep.Files, "clause_orders_drawn": total.Detsel, "yield_points_inserted": dsRep.Yields},
 		"components": componentsOf(p.Engine, p.Mode),
 		"known_findings_hit": knownHit,
 		"exhaustive":         false,
